@@ -37,6 +37,9 @@ type HCase struct {
 	History []Dgram      `json:"history"`
 	// NilStop arms the C13 assertion "a built-in handler returns a nil response only together with stop"
 	NilStop bool `json:"nilstop,omitempty"`
+	// Verify arms the C11 (DHCPv4) / C12 (DHCPv6) oracle on every datagram of the history instead of C01's:
+	// replies must match their request under stateful chains too (exhausted ranges and pools, static leases)
+	Verify bool `json:"verify,omitempty"`
 }
 
 func genChain(t *rapid.T, v6 bool) []PluginSpec {
@@ -65,10 +68,38 @@ func genChain(t *rapid.T, v6 bool) []PluginSpec {
 }
 
 // GenH draws a case
-func GenH(nilStop bool) func(t *rapid.T) HCase {
+func GenH(nilStop bool) func(t *rapid.T) HCase { return genH(nilStop, false, -1) }
+
+// GenHVerify draws histories for the C11 (proto 4) / C12 (proto 6) oracle: chains always contain the
+// stateful plugins, clients are many and pools small, so exhaustion and static leases are reached
+func GenHVerify(proto int) func(t *rapid.T) HCase { return genH(false, true, proto) }
+
+func genH(nilStop, verify bool, proto int) func(t *rapid.T) HCase {
 	return func(t *rapid.T) HCase {
-		c := HCase{V6: rapid.Bool().Draw(t, "v6"), NilStop: nilStop}
+		c := HCase{V6: rapid.Bool().Draw(t, "v6"), NilStop: nilStop, Verify: verify}
+		if proto == 4 {
+			c.V6 = false
+		} else if proto == 6 {
+			c.V6 = true
+		}
 		c.Plugins = genChain(t, c.V6)
+		if verify && rapid.IntRange(0, 3).Draw(t, "force-stateful") > 0 {
+			// make sure the lease plugin is there, with its smallest pool, so that exhaustion is reached
+			name, args := "range", chainArgs4["range"][rapid.IntRange(0, 1).Draw(t, "small-range")]
+			if c.V6 {
+				name, args = "prefix", chainArgs6["prefix"][1]
+			}
+			has := false
+			for i := range c.Plugins {
+				if c.Plugins[i].Name == name {
+					c.Plugins[i].Args, has = args, true
+				}
+			}
+			if !has {
+				pos := rapid.IntRange(0, len(c.Plugins)).Draw(t, "stateful-pos")
+				c.Plugins = append(c.Plugins[:pos], append([]PluginSpec{{Name: name, Args: args}}, c.Plugins[pos:]...)...)
+			}
+		}
 		c.Bound = rapid.Bool().Draw(t, "bound")
 		max := 12
 		if core.Thorough() {
@@ -169,6 +200,7 @@ func ExecH(c HCase) (res core.Result) {
 	}
 	defer ci.cleanup()
 	var reached atomic.Int64
+	answered := 0
 	var nilNoStop atomic.Value
 	h4 := []handler.Handler4{func(req, resp *dhcpv4.DHCPv4) (*dhcpv4.DHCPv4, bool) { reached.Add(1); return resp, false }}
 	for i, h := range ci.h4 {
@@ -242,6 +274,32 @@ func ExecH(c HCase) (res core.Result) {
 		if pan != nil {
 			return core.Violate("C01/panic", "datagram #%d (%d bytes) made the server panic: %v\n%s", idx, len(b), pan, trim(stack, 1800))
 		}
+		if c.Verify {
+			var r core.Result
+			if c.V6 {
+				src := d.Src
+				if src == "" {
+					src = "fe80::1"
+				}
+				bi := 0
+				if bound != nil {
+					bi = bound.Index
+				}
+				r = verifyReply6(b, sent, &net.UDPAddr{IP: net.ParseIP(src), Port: 546}, bi, recv, false)
+			} else {
+				r = verifyReply4(b, sent, "hist")
+			}
+			if r.Viol != nil {
+				r.Viol.Message = fmt.Sprintf("datagram #%d of a history under chain %v: %s", idx, c.Plugins, r.Viol.Message)
+				return r.Viol
+			}
+			for _, cl := range r.Classes {
+				if cl == "answered" {
+					answered++
+				}
+			}
+			return nil
+		}
 		if len(sent) > 1 {
 			return core.Violate("C01/more-than-one-reply", "datagram #%d: %d replies", idx, len(sent))
 		}
@@ -268,12 +326,15 @@ func ExecH(c HCase) (res core.Result) {
 	}
 	mutated, relayed := false, false
 	for i, d := range c.History {
+		if c.Verify && c.V6 && d.Src == "" {
+			c.History[i].Src = "fe80::1"
+		}
 		if v := feed(d, i); v != nil {
 			if v.Signature == "skip:cpu-starved" {
 				res.Skipped = "cpu-starved"
 				return
 			}
-			if c.NilStop {
+			if c.NilStop || (c.Verify && strings.HasPrefix(v.Signature, "C01/")) {
 				res.Classes = []string{"abandoned:C01"}
 				return
 			}
@@ -303,13 +364,13 @@ func ExecH(c HCase) (res core.Result) {
 			res.Skipped = "cpu-starved"
 			return
 		}
-		if !c.NilStop {
+		if !c.NilStop && !(c.Verify && strings.HasPrefix(v.Signature, "C01/")) {
 			v.Message = "canary after the history: " + v.Message
 			res.Viol = v
 		}
 		return
 	}
-	if reached.Load() == before && !c.NilStop {
+	if reached.Load() == before && !c.NilStop && !c.Verify {
 		res.Viol = core.Violate("C01/canary-not-handled", "a well-formed request after the history never reached the plugin chain")
 		return
 	}
@@ -320,6 +381,9 @@ func ExecH(c HCase) (res core.Result) {
 		}
 	}
 	res.NonTrivial = before > 0
+	if c.Verify {
+		res.NonTrivial = answered > 0
+	}
 	fam := "v4"
 	if c.V6 {
 		fam = "v6"
